@@ -140,6 +140,8 @@ type executor struct {
 	idxTerms []*Term
 	readLog  map[string]bool
 	heapLocals map[string]Value
+	curLoop  *loopInfo
+	freeVars map[string]Value
 	idxSeen  map[int]bool
 }
 
